@@ -1260,7 +1260,10 @@ pub fn run(ctx: &mut Ctx, eng: &mut dyn Engine) {
                 thousands of bytes); every packet re-serialised by the independent encoder at other legal C/S/O/H flags (policies max, tsi48-toi112, \
                 cci128, min-hflip, random per packet) and pushed through a fresh real Receiver: delivered objects + FDT instances identical to the \
                 baseline reception, flute's parse identical except lengths/offsets; a subsample goes through ops `rewidth` + `parse` against the Lean \
-                model; non-trivial = distinct (scheme, policy, TSI class, TOI max length, in-band FTI) with a complete baseline and >= 1 packet changed"
+                model; non-trivial = distinct (scheme, policy, TSI class, TOI max length, in-band FTI) with a complete baseline and >= 1 packet changed. \
+                sender-range: a real Sender configured at / beyond the field ranges the C06 theorems assume (fdt_start_id around 2^20 and 2^32-1, TSI around \
+                2^48, Reed-Solomon B + parity beyond 8 / 16 bits, RaptorQ transfer length around 2^40): what it emits is read by rfcdec and must carry the \
+                configured values (or the sender must refuse the configuration)"
         .split_whitespace()
         .collect::<Vec<_>>()
         .join(" ");
@@ -1276,4 +1279,5 @@ pub fn run(ctx: &mut Ctx, eng: &mut dyn Engine) {
     g.phase_small();
     g.phase_mutate();
     crate::rewidth::run(&mut g);
+    crate::sender_range::run(&mut g);
 }
